@@ -427,6 +427,29 @@ def walkRoot (pfx : Bytes) : Chk (Option Bytes) :=
 def walkSites : List SiteExp := [
   ⟨"backend/walk.go", "Walk", "slice", "prefix[:idx]", 1, ""⟩]
 
+/-! ### unsigned chunk reader: a size line is read ONCE per loop iteration, the end of the stream is an error -/
+
+/-- `bufio.Reader.ReadString('\n')` on what is left of the stream: the line with its delimiter and the
+rest; `none` = the stream ends before a delimiter (ReadString returns io.EOF with whatever it read,
+extractChunkSize treats every error as errMalformedEncoding) -/
+def readLine : Bytes → Option (Bytes × Bytes)
+  | [] => none
+  | c :: s =>
+    if c = 10 then some ([10], s)
+    else match readLine s with
+      | some (l, r) => some (c :: l, r)
+      | none => none
+
+/-- extractChunkSize as a function of the remaining stream: the accepted size and what remains behind
+the line; `none` = errMalformedEncoding (bad line, or end of stream: there is no retry) -/
+def extractChunkSizeOf (s : Bytes) : Option (Int × Bytes) :=
+  match readLine s with
+  | none => none
+  | some (l, rest) =>
+    match extractChunkSize l with
+    | none => none
+    | some n => some (n, rest)
+
 /-! ### the other allocations whose size is computed (not `len`/`cap` of a value already in memory) -/
 
 /-- utils.escapePath: `required := len(s) + 2*hexCount`, `make([]byte, required)` when it exceeds the
